@@ -15,7 +15,214 @@ from cv import graphs  # noqa: E402
 from cv.core import VERIF, Check  # noqa: E402
 from cayleypy import CayleyGraph, MatrixGroups, PermutationGroups, create_graph, prepare_graph  # noqa: E402
 
-THEOREMS = []
+THEOREMS = [
+    "Cv.C15.index_lists_sorted",
+    "Cv.C15.index_lists_nodup",
+    "Cv.C15.pancake_valid",
+    "Cv.C15.pancake_count",
+    "Cv.C15.pancake_structure",
+    "Cv.C15.pancake_inverse_closed",
+    "Cv.C15.pancake_defined_iff",
+    "Cv.C15.lrx_valid",
+    "Cv.C15.lrx_count",
+    "Cv.C15.lrx_structure",
+    "Cv.C15.lrx_name",
+    "Cv.C15.lrx_inverse_closed",
+    "Cv.C15.lrx_defined_iff",
+    "Cv.C15.lx_valid",
+    "Cv.C15.lx_count",
+    "Cv.C15.lx_structure",
+    "Cv.C15.lx_name",
+    "Cv.C15.lx_inverse_closed",
+    "Cv.C15.lx_defined_iff",
+    "Cv.C15.top_spin_valid",
+    "Cv.C15.top_spin_count",
+    "Cv.C15.top_spin_structure",
+    "Cv.C15.top_spin_inverse_closed",
+    "Cv.C15.top_spin_defined_iff",
+    "Cv.C15.coxeter_valid",
+    "Cv.C15.coxeter_count",
+    "Cv.C15.coxeter_structure",
+    "Cv.C15.coxeter_inverse_closed",
+    "Cv.C15.coxeter_defined_iff",
+    "Cv.C15.cyclic_coxeter_valid",
+    "Cv.C15.cyclic_coxeter_count",
+    "Cv.C15.cyclic_coxeter_structure",
+    "Cv.C15.cyclic_coxeter_inverse_closed",
+    "Cv.C15.cyclic_coxeter_defined_iff",
+    "Cv.C15.stars_valid",
+    "Cv.C15.stars_count",
+    "Cv.C15.stars_structure",
+    "Cv.C15.stars_inverse_closed",
+    "Cv.C15.stars_defined_iff",
+    "Cv.C15.generalized_stars_valid",
+    "Cv.C15.generalized_stars_count",
+    "Cv.C15.generalized_stars_structure",
+    "Cv.C15.generalized_stars_inverse_closed",
+    "Cv.C15.generalized_stars_defined_iff",
+    "Cv.C15.all_transpositions_valid",
+    "Cv.C15.all_transpositions_count",
+    "Cv.C15.all_transpositions_structure",
+    "Cv.C15.all_transpositions_inverse_closed",
+    "Cv.C15.all_transpositions_defined_iff",
+    "Cv.C15.full_reversals_valid",
+    "Cv.C15.full_reversals_count",
+    "Cv.C15.full_reversals_structure",
+    "Cv.C15.full_reversals_inverse_closed",
+    "Cv.C15.full_reversals_defined_iff",
+    "Cv.C15.signed_reversals_valid",
+    "Cv.C15.signed_reversals_count",
+    "Cv.C15.signed_reversals_structure",
+    "Cv.C15.signed_reversals_inverse_closed",
+    "Cv.C15.signed_reversals_defined_iff",
+    "Cv.C15.burnt_pancake_valid",
+    "Cv.C15.burnt_pancake_count",
+    "Cv.C15.burnt_pancake_structure",
+    "Cv.C15.burnt_pancake_inverse_closed",
+    "Cv.C15.burnt_pancake_defined_iff",
+    "Cv.C15.transposons_valid",
+    "Cv.C15.transposons_structure",
+    "Cv.C15.transposons_inverse_closed",
+    "Cv.C15.transposons_defined_iff",
+    "Cv.C15.block_interchange_valid",
+    "Cv.C15.block_interchange_structure",
+    "Cv.C15.block_interchange_inverse_closed",
+    "Cv.C15.block_interchange_defined_iff",
+    "Cv.C15.cubic_pancake_valid",
+    "Cv.C15.cubic_pancake_count",
+    "Cv.C15.cubic_pancake_structure",
+    "Cv.C15.cubic_pancake_inverse_closed",
+    "Cv.C15.cubic_pancake_defined_iff",
+    "Cv.C15.consecutive_k_cycles_valid",
+    "Cv.C15.consecutive_k_cycles_count",
+    "Cv.C15.consecutive_k_cycles_structure",
+    "Cv.C15.consecutive_k_cycles_inverse_closed",
+    "Cv.C15.consecutive_k_cycles_defined_iff",
+    "Cv.C15.down_cycles_valid",
+    "Cv.C15.down_cycles_count",
+    "Cv.C15.down_cycles_structure",
+    "Cv.C15.down_cycles_inverse_closed",
+    "Cv.C15.down_cycles_defined_iff",
+    "Cv.C15.prefix_cycles_valid",
+    "Cv.C15.prefix_cycles_count",
+    "Cv.C15.prefix_cycles_structure",
+    "Cv.C15.prefix_cycles_inverse_closed",
+    "Cv.C15.prefix_cycles_defined_iff",
+    "Cv.C15.wrapped_k_cycles_valid",
+    "Cv.C15.wrapped_k_cycles_count",
+    "Cv.C15.wrapped_k_cycles_structure",
+    "Cv.C15.wrapped_k_cycles_inverse_closed",
+    "Cv.C15.wrapped_k_cycles_defined_iff",
+    "Cv.C15.lsl_cycles_valid",
+    "Cv.C15.lsl_cycles_count",
+    "Cv.C15.lsl_cycles_structure",
+    "Cv.C15.lsl_cycles_inverse_closed",
+    "Cv.C15.lsl_cycles_defined_iff",
+    "Cv.C15.rapaport_m2_valid",
+    "Cv.C15.rapaport_m2_count",
+    "Cv.C15.rapaport_m2_structure",
+    "Cv.C15.rapaport_m2_inverse_closed",
+    "Cv.C15.rapaport_m2_defined_iff",
+    "Cv.C15.rapaport_m1_valid",
+    "Cv.C15.rapaport_m1_count",
+    "Cv.C15.rapaport_m1_structure",
+    "Cv.C15.rapaport_m1_inverse_closed",
+    "Cv.C15.rapaport_m1_defined_iff",
+    "Cv.C15.larx_valid",
+    "Cv.C15.larx_count",
+    "Cv.C15.larx_structure",
+    "Cv.C15.larx_inverse_closed",
+    "Cv.C15.larx_defined_iff",
+    "Cv.C15.three_cycles_valid",
+    "Cv.C15.three_cycles_structure",
+    "Cv.C15.three_cycles_inverse_closed",
+    "Cv.C15.three_cycles_defined_iff",
+    "Cv.C15.three_cycles_0ij_valid",
+    "Cv.C15.three_cycles_0ij_structure",
+    "Cv.C15.three_cycles_0ij_inverse_closed",
+    "Cv.C15.three_cycles_0ij_defined_iff",
+    "Cv.C15.three_cycles_01i_valid",
+    "Cv.C15.three_cycles_01i_count",
+    "Cv.C15.three_cycles_01i_structure",
+    "Cv.C15.three_cycles_01i_inverse_closed",
+    "Cv.C15.three_cycles_01i_defined_iff",
+    "Cv.C15.koltsov3_valid",
+    "Cv.C15.koltsov3_count",
+    "Cv.C15.koltsov3_structure",
+    "Cv.C15.koltsov3_inverse_closed",
+    "Cv.C15.koltsov3_defined_iff",
+    "Cv.C15.sheveleva2_valid",
+    "Cv.C15.sheveleva2_count",
+    "Cv.C15.sheveleva2_structure",
+    "Cv.C15.sheveleva2_inverse_closed",
+    "Cv.C15.sheveleva2_defined_iff",
+    "Cv.C15.increasing_k_cycles_valid",
+    "Cv.C15.increasing_k_cycles_count",
+    "Cv.C15.increasing_k_cycles_structure",
+    "Cv.C15.increasing_k_cycles_defined_iff",
+    "Cv.C15.increasing_k_cycles_inverse_closed",
+    "Cv.C15.derangements_valid",
+    "Cv.C15.derangements_structure",
+    "Cv.C15.derangements_inverse_closed",
+    "Cv.C15.derangements_defined_iff",
+    "Cv.C15.involutive_derangements_valid",
+    "Cv.C15.involutive_derangements_structure",
+    "Cv.C15.involutive_derangements_inverse_closed",
+    "Cv.C15.involutive_derangements_defined_iff",
+    "Cv.C15.all_cycles_valid",
+    "Cv.C15.all_cycles_structure",
+    "Cv.C15.all_cycles_defined_iff",
+    "Cv.C15.all_cycles_inverse_closed",
+    "Cv.C15.permFamilyP_eq",
+    "Cv.C15.conjugacy_classes_valid",
+    "Cv.C15.three_cycles_0ij_count",
+    "Cv.C15.three_cycles_count",
+    "Cv.C15.transposons_count",
+    "Cv.C15.block_interchange_count",
+    "Cv.C15.heisenberg_defined_iff",
+    "Cv.C15.heisenberg_count",
+    "Cv.C15.heisenberg_valid",
+    "Cv.C15.heisenberg_structure",
+    "Cv.C15.heisenberg_inverses",
+    "Cv.C15.sl_fund_roots_defined_iff",
+    "Cv.C15.sl_fund_roots_count",
+    "Cv.C15.sl_fund_roots_valid",
+    "Cv.C15.sl_fund_roots_structure",
+    "Cv.C15.sl_fund_roots_inverses",
+    "Cv.C15.sl_root_weyl_defined_iff",
+    "Cv.C15.sl_root_weyl_count",
+    "Cv.C15.sl_root_weyl_valid",
+    "Cv.C15.sl_root_weyl_structure",
+    "Cv.C15.sl_root_weyl_inverses",
+    "Cv.C15.lookup_lx",
+    "Cv.C15.lookup_lrx",
+    "Cv.C15.lookup_top_spin",
+    "Cv.C15.lookup_all_transpositions",
+    "Cv.C15.lookup_transposons",
+    "Cv.C15.lookup_block_interchange",
+    "Cv.C15.lookup_full_reversals",
+    "Cv.C15.lookup_coxeter",
+    "Cv.C15.lookup_pancake",
+    "Cv.C15.lookup_all_cycles",
+    "Cv.C15.lookup_lsl_cycles",
+    "Cv.C15.lookup_larx",
+    "Cv.C15.lookup_01i",
+    "Cv.C15.lookup_increasing_k_cycles",
+    "Cv.C15.lookup_consecutive_k_cycles",
+    "Cv.C15.lookup_k_cycles_missing_k",
+    "Cv.C15.lookup_down_cycles",
+    "Cv.C15.lookup_prefix_cycles",
+    "Cv.C15.lookup_lx_prefix",
+    "Cv.C15.lookup_lrx_prefix",
+    "Cv.C15.lookup_lx_N",
+    "Cv.C15.lookup_lrx_N",
+    "Cv.C15.lookup_constructor",
+    "Cv.C15.lookup_roundtrip_lx",
+    "Cv.C15.lookup_roundtrip_lrx",
+    "Cv.C15.lookup_own_name_lrx_k",
+    "Cv.C15.lookup_roundtrip",
+    "Cv.C15.lookup_accepts_iff",
+]
 PG, MG = PermutationGroups, MatrixGroups
 
 
